@@ -24,6 +24,7 @@ class Solver:
         self.lia = LiaSolver(store, timeout_ms=timeout_ms, seed=seed)
         self.last = 'bv'
         self.use_lia = True
+        self.xs = None       # cross-solver sampler (xcheck.XSampler), shared with the integer back end
 
     # ------------------------------------------------------------------
     def zvar(self, v):
@@ -295,6 +296,8 @@ class Solver:
                 self.s.add(f)
             r = str(self.s.check())
             self.last_model = self.s.model() if r == 'sat' else None
+            if self.xs is not None:
+                self.xs.offer('bv', r, self.s)
         finally:
             self.s.pop()
         self.stats['solver_s'] += time.time() - t0
